@@ -823,7 +823,9 @@ func nilRecv(v Value, what string) {
 func extMutexLock(fr *frame, a []Value) Value {
 	nilRecv(a[0], "Mutex.Lock")
 	m := structOf(a[0])
-	fr.p.yield("Mutex.Lock")
+	if !syncInternal(fr) {
+		fr.p.yield("Mutex.Lock")
+	}
 	fr.p.blockUntil(func() bool { return m[0].(*Term).C == 0 }, "Mutex.Lock")
 	m[0] = fr.w.tt.BVC(32, 1)
 	return nil
@@ -836,7 +838,6 @@ func extMutexUnlock(fr *frame, a []Value) Value {
 		fr.p.fatal("sync: unlock of unlocked mutex")
 	}
 	m[0] = fr.w.tt.BVC(32, 0)
-	fr.p.yield("Mutex.Unlock")
 	return nil
 }
 
@@ -881,7 +882,6 @@ func extRWUnlock(fr *frame, a []Value) Value {
 		fr.p.fatal("sync: Unlock of unlocked RWMutex")
 	}
 	m[0] = fr.w.tt.BVC(32, 0)
-	fr.p.yield("RWMutex.Unlock")
 	return nil
 }
 
@@ -902,7 +902,6 @@ func extRWRUnlock(fr *frame, a []Value) Value {
 		fr.p.fatal("sync: RUnlock of unlocked RWMutex")
 	}
 	rw[2] = fr.w.tt.BVC(32, rw[2].(*Term).C-1)
-	fr.p.yield("RWMutex.RUnlock")
 	return nil
 }
 
@@ -920,7 +919,6 @@ func extWGAdd(fr *frame, a []Value) Value {
 		panic(targetPanic{v: fr.w.newError(Str{S: "sync: negative WaitGroup counter"})})
 	}
 	*c = fr.w.tt.BVC(32, uint64(uint32(n)))
-	fr.p.yield("WaitGroup.Add")
 	return nil
 }
 
@@ -957,22 +955,29 @@ func extOnceDo(fr *frame, a []Value) Value {
 	return nil
 }
 
+func (p *Path) yieldAtomic(fr *frame, what string) {
+	if syncInternal(fr) {
+		return
+	}
+	p.yield(what)
+}
+
 func extAtomicLoad(fr *frame, a []Value) Value {
 	nilRecv(a[0], "atomic load")
-	fr.p.yield("atomic.Load")
+	fr.p.yieldAtomic(fr, "atomic.Load")
 	return *a[0].(*Value)
 }
 
 func extAtomicStore(fr *frame, a []Value) Value {
 	nilRecv(a[0], "atomic store")
-	fr.p.yield("atomic.Store")
+	fr.p.yieldAtomic(fr, "atomic.Store")
 	*a[0].(*Value) = a[1]
 	return nil
 }
 
 func extAtomicAdd(fr *frame, a []Value) Value {
 	nilRecv(a[0], "atomic add")
-	fr.p.yield("atomic.Add")
+	fr.p.yieldAtomic(fr, "atomic.Add")
 	c := a[0].(*Value)
 	n := fr.w.tt.Add((*c).(*Term), a[1].(*Term))
 	*c = n
@@ -980,7 +985,7 @@ func extAtomicAdd(fr *frame, a []Value) Value {
 }
 
 func extAtomicAnd(fr *frame, a []Value) Value {
-	fr.p.yield("atomic.And")
+	fr.p.yieldAtomic(fr, "atomic.And")
 	c := a[0].(*Value)
 	old := (*c).(*Term)
 	*c = fr.w.tt.BAnd(old, a[1].(*Term))
@@ -988,7 +993,7 @@ func extAtomicAnd(fr *frame, a []Value) Value {
 }
 
 func extAtomicOr(fr *frame, a []Value) Value {
-	fr.p.yield("atomic.Or")
+	fr.p.yieldAtomic(fr, "atomic.Or")
 	c := a[0].(*Value)
 	old := (*c).(*Term)
 	*c = fr.w.tt.BOr(old, a[1].(*Term))
@@ -996,7 +1001,7 @@ func extAtomicOr(fr *frame, a []Value) Value {
 }
 
 func extAtomicSwap(fr *frame, a []Value) Value {
-	fr.p.yield("atomic.Swap")
+	fr.p.yieldAtomic(fr, "atomic.Swap")
 	c := a[0].(*Value)
 	old := *c
 	*c = a[1]
@@ -1004,7 +1009,7 @@ func extAtomicSwap(fr *frame, a []Value) Value {
 }
 
 func extAtomicCAS(fr *frame, a []Value) Value {
-	fr.p.yield("atomic.CAS")
+	fr.p.yieldAtomic(fr, "atomic.CAS")
 	c := a[0].(*Value)
 	eq := fr.w.tt.Eq((*c).(*Term), a[1].(*Term))
 	if fr.p.branch(eq) {
@@ -1015,7 +1020,7 @@ func extAtomicCAS(fr *frame, a []Value) Value {
 }
 
 func extAtomicCASPtr(fr *frame, a []Value) Value {
-	fr.p.yield("atomic.CAS")
+	fr.p.yieldAtomic(fr, "atomic.CAS")
 	c := a[0].(*Value)
 	if ptrIdent((*c).(UnsafePtr).P) == ptrIdent(a[1].(UnsafePtr).P) {
 		*c = a[2]
@@ -1026,12 +1031,12 @@ func extAtomicCASPtr(fr *frame, a []Value) Value {
 
 // atomic.Value{v any}
 func extAtomicValueLoad(fr *frame, a []Value) Value {
-	fr.p.yield("atomic.Value.Load")
+	fr.p.yieldAtomic(fr, "atomic.Value.Load")
 	return structOf(a[0])[0]
 }
 
 func extAtomicValueStore(fr *frame, a []Value) Value {
-	fr.p.yield("atomic.Value.Store")
+	fr.p.yieldAtomic(fr, "atomic.Value.Store")
 	v := a[1].(Iface)
 	if v.T == nil {
 		panic(targetPanic{v: fr.w.newError(Str{S: "sync/atomic: store of nil value into Value"})})
